@@ -725,7 +725,129 @@ class C13(core.Check):
             self.count('opcode-level %s %d requests sweeps=%d k<=%d%s (oracle only)' % (
                 state, len(kinds), sweeps, bound, '' if n < cap else ' (capped)'), n)
         self.granularity(False)
-        return out + list(found.values())
+        return out + list(found.values()) + self.thread_probes()
+
+    def thread_probes(self):
+        """two histories on real threads with explicit rendez-vous (oracle only):
+        (a) a streamed resource ended by InternalRedirect after it used the session: a later request for the same
+            session on ANOTHER thread must get the lock (the release must not depend on how close() ends);
+        (b) file backend, explicit locking: request R1 locks the session, deletes it (logout) and keeps working under
+            the lock; R2, which had looked the id up before the delete, asks for the lock meanwhile: it must not get it
+            while R1 is still between acquire_lock and release_lock."""
+        import tempfile
+        import time
+        import cherrypy
+        from cherrypy.lib import sessions
+        from ..impl import wsgi
+        out = []
+        store = tempfile.mkdtemp(prefix='c13x', dir=os.path.join(core.WORK, 'C13'))
+        flags = {}
+        ev = {'go2': threading.Event(), 'r2_has_lock': threading.Event()}
+
+        class Root(object):
+            @cherrypy.expose
+            def first(self):
+                cherrypy.session['n'] = cherrypy.session.get('n', 0) + 1
+                return b'ok'
+
+            @cherrypy.expose
+            def streamed(self):
+                cherrypy.session['n'] = cherrypy.session.get('n', 0) + 1
+                cherrypy.response.stream = True
+                raise cherrypy.InternalRedirect('/first')
+
+            @cherrypy.expose
+            def r1(self):
+                sess = cherrypy.session
+                sess.acquire_lock()
+                flags['r1_in_cs'] = True
+                sess['n'] = 1
+                sess.delete()
+                ev['go2'].set()
+                ev['r2_has_lock'].wait(1.5)          # keeps working under the lock
+                flags['r2_entered_while_r1_inside'] = ev['r2_has_lock'].is_set()
+                flags['r1_in_cs'] = False
+                return b'r1'
+
+            @cherrypy.expose
+            def r2(self):
+                sess = cherrypy.session                # the id was looked up in before_request_body
+                ev['go2'].wait(10)
+                sess.acquire_lock()
+                if flags.get('r1_in_cs'):
+                    ev['r2_has_lock'].set()
+                sess['m'] = 2
+                return b'r2'
+        try:
+            for backend in ('ram', 'file'):
+                conf = {'tools.sessions.on': True, 'tools.sessions.clean_freq': 0,
+                        'tools.sessions.storage_class': sessions.RamSession if backend == 'ram' else sessions.FileSession}
+                if backend == 'file':
+                    conf['tools.sessions.storage_path'] = store
+                    conf['tools.sessions.lock_timeout'] = 20
+                app = wsgi.make_app(Root(), {'/': conf, '/r1': {'tools.sessions.locking': 'explicit'},
+                                             '/r2': {'tools.sessions.locking': 'explicit'}})
+
+                def get(path, sid=None, box=None):
+                    r = wsgi.call(app, 'GET', path, [] if sid is None else [('Cookie', 'session_id=' + sid)])
+                    if box is not None:
+                        box.append(r['status'])
+                    return r
+                r = get('/first')
+                sid = [v for k, v in r['headers'] if k.lower() == 'set-cookie'][0].split(';')[0].split('=', 1)[1]
+                # (a)
+                ra = get('/streamed', sid)
+                box = []
+                t = threading.Thread(target=get, args=('/first', sid, box), daemon=True)
+                t.start()
+                t.join(6)
+                self.count('thread probe: streamed InternalRedirect then another thread (%s)' % backend)
+                if t.is_alive() or box != [200]:
+                    out.append(core.Violation(
+                        'lock-not-released:streamed-internal-redirect',
+                        '%s backend: a streamed resource ended by InternalRedirect (answered %s); the next request for '
+                        'the same session on another thread %s' % (backend, ra['status'], 'is still blocked after 6 s: '
+                                                                     'the lock was never released' if t.is_alive()
+                                                                     else 'was answered %r' % box),
+                        case={'k': 'streamed-internal-redirect', 'backend': backend},
+                        observed={'first': ra['status'], 'second': box, 'blocked': t.is_alive()}))
+                    break
+                # (b)
+                if backend == 'file':
+                    flags.clear()
+                    ev['go2'].clear()
+                    ev['r2_has_lock'].clear()
+                    sid = [v for k, v in get('/first')['headers'] if k.lower() == 'set-cookie'][0].split(';')[0].split('=', 1)[1]
+                    b2 = []
+                    t2 = threading.Thread(target=get, args=('/r2', sid, b2), daemon=True)
+                    t2.start()
+                    time.sleep(0.3)                     # R2 is past the id lookup, waiting for go2
+                    b1 = []
+                    t1 = threading.Thread(target=get, args=('/r1', sid, b1), daemon=True)
+                    t1.start()
+                    t1.join(15)
+                    t2.join(15)
+                    self.count('thread probe: delete() under the lock while another request waits (file)')
+                    if flags.get('r2_entered_while_r1_inside') or t1.is_alive() or t2.is_alive():
+                        out.append(core.Violation(
+                            'two-holders:after-delete',
+                            'file backend: R1 locked session %s, deleted it and kept working; R2 (same id, looked up '
+                            'before the delete) %s' % (sid, 'acquired the session lock while R1 was still inside its '
+                                                       'critical section' if flags.get('r2_entered_while_r1_inside')
+                                                       else 'or R1 never finished'),
+                            case={'k': 'delete-under-lock'}, observed={'flags': dict(flags), 'r1': b1, 'r2': b2}))
+                import logging
+                try:
+                    cherrypy.engine.unsubscribe('graceful', app.log.reopen_files)
+                except Exception:
+                    pass
+                for lg in (app.log.error_log, app.log.access_log):
+                    logging.Logger.manager.loggerDict.pop(lg.name, None)
+        finally:
+            sessions.RamSession.cache.clear()
+            sessions.RamSession.locks.clear()
+            shutil.rmtree(store, ignore_errors=True)
+        return out
 
 
 CHECK = C13
